@@ -94,7 +94,7 @@ func NewCaseBound(o Opts) (*Case, error) {
 	for i := 0; i < 400; i++ {
 		conn, err := net.DialTimeout("tcp", c.Addr, 200*time.Millisecond)
 		if err == nil {
-			_ = conn.Close()
+			rstClose(conn) // no TIME_WAIT socket per case
 			return c, nil
 		}
 		lastErr = err
